@@ -17,6 +17,7 @@ type Effects struct {
 	final map[*ssa.Function]*ModSet
 	cur   map[*ssa.Function]*ModSet
 	used  map[string]bool // extern/pure assumptions consulted
+	inLoop bool           // computing the write set of a loop body in the function being verified
 }
 
 func NewEffects(g *Gen) *Effects {
@@ -51,6 +52,7 @@ var pureExternPrefixes = []string{
 	"(google.golang.org/protobuf/reflect/protoreflect.", "cmp.Compare", "bytes.NewReader", "bytes.NewBuffer",
 	"(encoding/binary.bigEndian).String", "encoding/binary.Size",
 	"(github.com/prometheus/client_golang/prometheus.", "(*github.com/prometheus/client_golang/prometheus.",
+	"slices.BinarySearch", "slices.IsSorted", "slices.Compare", "maps.Keys", "maps.Values", "slices.Collect", "slices.Sorted",
 }
 
 // bigIntWriters: math/big methods that write only the receiver's value (ghost array BigVal).
@@ -79,11 +81,18 @@ func (e *Effects) external(key string) *ModSet {
 	return &ModSet{All: true, Keys: map[string]bool{}}
 }
 
+// fresh: a write through v is invisible to the caller (memory allocated by this invocation).
+// Inside a loop that exemption does not apply: objects allocated by earlier iterations persist.
+func (e *Effects) fresh(v ssa.Value) bool { return !e.inLoop && freshRoot(v) }
+
 // of returns the (transitive) write set of fn.
 func (e *Effects) of(fn *ssa.Function) *ModSet {
 	if ms, ok := e.final[fn]; ok {
 		return ms
 	}
+	savedLoop := e.inLoop
+	e.inLoop = false
+	defer func() { e.inLoop = savedLoop }()
 	if len(fn.Blocks) == 0 {
 		return e.external(funcKey(fn))
 	}
@@ -254,12 +263,12 @@ func freshRootV(v ssa.Value, visiting map[*ssa.Alloc]bool, depth int) bool {
 func (e *Effects) instrWrites(tc *TypeCtx, fn *ssa.Function, in ssa.Instruction, ms *ModSet) {
 	switch in := in.(type) {
 	case *ssa.Store:
-		if rootCell(in.Addr) != nil || freshRoot(in.Addr) {
+		if rootCell(in.Addr) != nil || e.fresh(in.Addr) {
 			return
 		}
 		e.addrWrites(tc, in.Addr, ms)
 	case *ssa.MapUpdate:
-		if freshRoot(in.Map) {
+		if e.fresh(in.Map) {
 			return
 		}
 		d, v := tc.MapKeys(in.Map.Type().Underlying().(*types.Map))
@@ -273,15 +282,15 @@ func (e *Effects) instrWrites(tc *TypeCtx, fn *ssa.Function, in ssa.Instruction,
 			switch b.Name() {
 			case "append":
 				// may write into the spare capacity of the first argument's backing array
-				if !freshRoot(c.Args[0]) {
+				if !e.fresh(c.Args[0]) {
 					ms.Add(tc.ElemKey(c.Args[0].Type().Underlying().(*types.Slice).Elem()))
 				}
 			case "copy":
-				if !freshRoot(c.Args[0]) {
+				if !e.fresh(c.Args[0]) {
 					ms.Add(tc.ElemKey(c.Args[0].Type().Underlying().(*types.Slice).Elem()))
 				}
 			case "delete":
-				if !freshRoot(c.Args[0]) {
+				if !e.fresh(c.Args[0]) {
 					d, _ := tc.MapKeys(c.Args[0].Type().Underlying().(*types.Map))
 					ms.Add(d)
 				}
@@ -311,7 +320,7 @@ func (e *Effects) instrWrites(tc *TypeCtx, fn *ssa.Function, in ssa.Instruction,
 		}
 		callee := c.StaticCallee()
 		if callee == nil {
-			if mc, ok := c.Value.(*ssa.MakeClosure); ok {
+			if mc := closureOfValue(c.Value); mc != nil {
 				ms.Union(e.lookup(mc.Fn.(*ssa.Function)))
 				return
 			}
